@@ -248,7 +248,8 @@ def main_(seed, nscen):
             t = truth(fate)
             where = fdesc(fate)
             recoverable = [v for v in t if len(t[v]) >= k]
-            healthy = (len(t) == 1 and newest in t and len(t[newest]) == n)
+            # (the checker cannot know that a newer version was ever published if no share of it is left: one version with N distinct shares is healthy)
+            healthy = (len(t) == 1 and len(next(iter(t.values()))) == n)
             checker_node = new_nodemaker(g).create_from_cap(wcap)
             st, cr = yield with_timeout(checker_node.check(Monitor(), verify=False))
             report["checks"] += 1
